@@ -156,7 +156,7 @@ def main():
     fut = ex.submit(chrun.run_conditions, ch_conditions(a.tier), "", 2)
     items = []
     models = [(2, 2)] if quick else [(2, 2), (2, 3), (3, 2), (3, 3)]
-    max_order = 2 if quick else 3
+    max_order = 3
     for mt in models:
         for variant in ("mp", "re"):
             for singles in (False, True):
